@@ -339,6 +339,9 @@ def check(ctx):
         rays = [canon(ge, kids(n)[2], inline=False) for n, cfid, nm in ge.calls() if nm == 'engine::attack_in_line']
         gd = [canon(ge, c, inline=False).replace(' ', '') for n, cfid, nm in ge.calls() if nm == 'engine::attack_in_line'
               for c, t in guard_facts(ge, n) if t]
+        if not rays:
+            raise AnalysisBroken('C01: generate_enpassant<%s> does not look along the king\'s rank with attack_in_line; another way of testing '
+                                 'the exposure after both pawns leave the rank is not something the rule can judge' % col)
         blk = [n for n in ge.all_nodes() if n['k'] == 'VarDecl' and n.get('name') == 'blockers']
         okb = len(blk) == 1 and canon(ge, kids(blk[0])[0], inline=False).replace(' ', '') == '(pos.pieces()^(square_bb(captured_square)|attacking_bb))'
         ctx.ob('C01.M1.ep-rank-discovery', 'generate_enpassant<%s>' % col, rays == ['RAY_E'] and okb and
@@ -599,8 +602,19 @@ def check(ctx):
         pair = {}
         for n in f.all_nodes():
             if n['k'] == 'VarDecl' and n.get('name') in ('right_bb', 'left_bb') and kids(n):
-                sh = [short(x['callee']['targs']) for x in walk(kids(n)[0]) if x.get('callee', {}).get('n') == 'engine::shift']
-                pair[n['name']] = dirs[sh[0]] if sh else None
+                shc = [x for x in walk(kids(n)[0]) if x.get('callee', {}).get('n') == 'engine::shift']
+                sh = [short(x['callee']['targs']) for x in shc]
+                dv = dirs.get(sh[0]) if sh else None
+                if dv is None and shc:
+                    # a direction constant of the function itself (e.g. the negation of another one)
+                    tv = [const_of(strip_casts(y)) for y in walk(shc[0]) if y['k'] == 'SubstNonTypeTemplateParmExpr']
+                    dv = next((v for v in tv if v is not None), None)
+                    if dv is None:
+                        raise AnalysisBroken('C01: generate_enpassant<%s> shifts by a direction the rule cannot evaluate (%s)' % (col, sh))
+                # shifting the pawns by D onto the target, or the target by -D onto the pawns, finds the same capturer
+                if dv is not None and shc and 'enpassant' in canon(f, kids(shc[0])[-1], inline=True):
+                    dv = -dv
+                pair[n['name']] = dv
         em_pairs = {}
         for em, creator, args in emissions(f):
             gf = [canon(f, c, inline=False) for c, t in guard_facts(f, em) if t]
